@@ -250,12 +250,41 @@ def rule_fixed_prefixes(ck, F, maker):
         if b is None or not b.get("mir"):
             continue
         B = M.Body(b)
+
+        def const_int(c):
+            v = c.get("int", c.get("bits"))
+            if isinstance(v, int):
+                return v
+            name = c.get("uneval")
+            if name:      # a named constant: `const MAX_CHARS: usize = 3;`
+                for cb_ in F.lib.bodies:
+                    if str(cb_.get("kind", "")).startswith("Const") and (cb_["path"] == name or cb_["path"].endswith("::" + name.rsplit("::", 1)[-1])) and cb_.get("hir") is not None:
+                        try:
+                            v_ = Hh.strip(Hh.norm_body(cb_)["value"])
+                        except Exception:
+                            continue
+                        if v_.get("k") == "Lit" and v_.get("lit") == "int":
+                            return v_["v"]
+            return None
         for bb, t in B.calls():
             if (M.Body.callee_decl(t) or "").endswith("iter::Iterator::take") and len(t["args"]) == 2:
                 for o in M.trace(B, t["args"][1], ()):
-                    v = o.const.get("int", o.const.get("bits")) if o.kind == "const" else None
+                    v = const_int(o.const) if o.kind == "const" else None
                     if isinstance(v, int):
                         n_take = v if n_take is None else max(n_take, v)
+        # or a hand-written bound: the length of the text built so far compared with a constant (`if taken.len() == 3 { break }`)
+        for i in sorted(B.reach):
+            for st in B.blocks[i]["stmts"]:
+                rv = st.get("rv") or {}
+                if st["k"] == "assign" and rv.get("k") == "binop" and rv.get("op") in ("Eq", "Ge", "Gt", "Lt", "Le", "Ne"):
+                    for x, y in ((rv["a"], rv["b"]), (rv["b"], rv["a"])):
+                        if x.get("k") == "const" and y.get("k") in ("copy", "move"):
+                            v = const_int(x)
+                            os_ = M.trace(B, y, ())
+                            if isinstance(v, int) and os_ and all(o.kind == "call" and (M.Body.callee_decl(o.term) or "").endswith(
+                                    ("String::len", "str>::len", "iter::Iterator::count")) for o in os_):
+                                v = v + 1 if rv["op"] in ("Gt", "Le") else v
+                                n_take = v if n_take is None else max(n_take, v)
     X = T.extractor(F)
     CE = og.CallExpander(F)
     lits = {}
